@@ -17,6 +17,7 @@ RULE = ('Abstract trees (typed generator over random schemas, small-scope enumer
         'text are judged by an independent recogniser (accept / syntax error). Non-trivial = accepted text with '
         '>= 1 operator or >= 2 events whose AST was compared; distinct = distinct shape signature '
         '(identifiers and literal values erased).')
+RULE_ADDED = ' Since the seeding rounds: time bounds must equal the float quotient or the correctly rounded exact quotient (no tolerance); constant predicates; strings with tabs/no-break spaces; FF/CR blanks.'
 ASSUMPTIONS = [
     'the documented grammar is my transcription (DESIGN.md Appendix A.1) of the four .lark files and docs/lang.md',
     'names equal to a keyword are not judged; well-formed but ill-typed texts only need to avoid a syntax error',
